@@ -51,7 +51,7 @@ def run(tier, seed):
               driver_stats=stats)
     v.assumptions += ["requests are well-formed (no invalid escapes or semicolon separators in queries, which Go's reverse proxy rewrites on purpose)",
                       "X-Forwarded-Host / X-Forwarded-Proto, Content-Length / Transfer-Encoding and Date may be added or recomputed by the proxies",
-                      "bounded time: error answers within 4.5 s (vhostHTTPTimeout = 2 s), answers within 30 s"]
+                      "bounded time: error answers within 12 s (vhostHTTPTimeout = 8 s), answers within 30 s"]
     v.finish()
 
 
